@@ -303,3 +303,63 @@ Proof.
   { rewrite <- (Qeq_eqR _ _ (ratio_is_spec a b H)). rewrite (Qeq_eqR _ _ (declare_keeps_number a b H U)). unfold Q2R. cbn. field. }
   clear W. induction os as [|o os IH]; [reflexivity|]. cbn [map]. rewrite (convert_identity a b H One), IH. reflexivity.
 Qed.
+
+(* ---------------------------------------------------------------- the same for every kind of observation *)
+(* the number an observation carries (the total, for a repeated one) and its multiplicity *)
+Definition obs_number (o : obs) : R :=
+  match o with OUnsigned u => IZR (Z.of_N u) | OFloat f => R64 f | ORepeated t _ => R64 t end.
+Definition obs_occurrences (o : obs) : N :=
+  match o with ORepeated _ n => n | _ => 1%N end.
+(* finite, of moderate magnitude; an integer must be exactly representable (at most 2^53) *)
+Definition obs_moderate (o : obs) : Prop :=
+  match o with
+  | OUnsigned u => (1 <= u <= 2 ^ 53)%N
+  | OFloat f | ORepeated f _ => Binary.is_finite 53 1024 f = true /\ bpow radix2 (-900) <= Rabs (R64 f) <= bpow radix2 900
+  end.
+
+(* the binary64 an observation's number is computed from *)
+Definition float_of (o : obs) : f64 :=
+  match o with OUnsigned u => u64_as_f64 u | OFloat f => f | ORepeated t _ => t end.
+
+Lemma float_of_moderate : forall o, obs_moderate o ->
+  Binary.is_finite 53 1024 (float_of o) = true /\
+  bpow radix2 (-900) <= Rabs (R64 (float_of o)) <= bpow radix2 900 /\ R64 (float_of o) = obs_number o.
+Proof.
+  intros [u|f|t n] M; cbn [obs_moderate float_of obs_number] in *.
+  - destruct (u64_as_f64_exact u ltac:(lia)) as [V F]. split; [exact F|]. split; [|exact V].
+    rewrite V. rewrite Rabs_pos_eq by (apply IZR_le; lia). split.
+    + apply Rle_trans with 1; [change 1 with (bpow radix2 0); apply bpow_le; lia | change 1 with (IZR 1); apply IZR_le; lia].
+    + apply Rle_trans with (bpow radix2 53); [change (bpow radix2 53) with (IZR (2 ^ 53)); apply IZR_le; lia | apply bpow_le; lia].
+  - destruct M as [F B]. repeat split; try assumption; tauto.
+  - destruct M as [F B]. repeat split; try assumption; tauto.
+Qed.
+
+(* converting an observation of any kind computes the same number as converting its float, and keeps the occurrences *)
+Lemma convert_number : forall r o, R64 (float_of o) = obs_number o ->
+  obs_number (convert r o) = obs_number (convert r (OFloat (float_of o))) /\
+  obs_occurrences (convert r o) = obs_occurrences o.
+Proof.
+  intros r o V. unfold convert. destruct (f64_eq r f64_one).
+  - split; [|reflexivity]. cbn [obs_number]. symmetry. exact V.
+  - destruct o; split; reflexivity.
+Qed.
+
+Theorem with_unit_preserves_quantity_any_kind : forall (a b : tag) (o : obs) dims fl,
+  convertible a b = true -> unitless_source a = false -> obs_moderate o ->
+  exists o' : obs,
+    write (WithUnit (Script a (VMetric [o] (tag_unit a) dims fl)) b) = VMetric [o'] (tag_unit b) dims fl /\
+    obs_occurrences o' = obs_occurrences o /\
+    Rabs (obs_number o' * Q2R (phys (tag_unit b)) - obs_number o * Q2R (phys (tag_unit a)))
+      <= (bpow radix2 (-52) + bpow radix2 (-106)) * Rabs (obs_number o * Q2R (phys (tag_unit a))).
+Proof.
+  intros a b o dims fl H NU M.
+  destruct (float_of_moderate o M) as (F & B & V).
+  destruct (with_unit_preserves_quantity a b (float_of o) dims fl H NU F B) as (y & Wy & Ey).
+  pose proof (right_unit_is_converted (Script a (VMetric [o] (tag_unit a) dims fl)) b [o] dims fl eq_refl) as W.
+  cbn [declared map] in W.
+  pose proof (right_unit_is_converted (Script a (VMetric [OFloat (float_of o)] (tag_unit a) dims fl)) b [OFloat (float_of o)] dims fl eq_refl) as Wx.
+  cbn [declared map] in Wx. rewrite Wx in Wy. injection Wy as Y.
+  destruct (convert_number (ratio_f64 a b) o V) as [CN CO].
+  exists (convert (ratio_f64 a b) o). split; [exact W|]. split; [exact CO|].
+  rewrite CN, Y. cbn [obs_number]. rewrite <- V. exact Ey.
+Qed.
